@@ -9,7 +9,9 @@ import (
 	"math"
 	"math/big"
 	"os"
+	"runtime"
 	"sort"
+	"sync"
 
 	"github.com/go-logr/logr"
 	"go.opentelemetry.io/otel"
@@ -1220,6 +1222,7 @@ func main() {
 	// a window that shrank by a downscale keeps spare capacity; a later grow-left / grow-right must zero it
 	addExpo(4, 0, false, false, false, [][]float64{{-1.5, -3, -6, -12, 1.5, 300, -0.01}}, nil, "corpus-expo")
 	addExpo(4, 0, false, true, false, [][]float64{{1.5, 3, 6, 12}, {-1.5, -300}, {0.01, 5000}}, nil, "corpus-expo")
+	addExpo(4, 0, false, false, false, [][]float64{{2, 4, 8, 16, 128}}, nil, "corpus-expo") // grow right inside capacity kept by a downscale
 	// subnormals recorded while the scale is already <= 0
 	addExpo(160, -4, false, false, false, [][]float64{{0x1p-1040, 3e-310, 5e-324, -1e-320, 1}}, nil, "corpus-expo")
 
@@ -1442,6 +1445,174 @@ func main() {
 			b = math.Nextafter(b, math.Inf(-1))
 		}
 		addBigInt(v, b, int32(-r.Intn(3)), "bigint")
+	}
+
+	// ---------- concurrent recording into ONE attribute set ----------
+	// G goroutines record known values; optionally a collector races them.  After the join the point (for
+	// delta explicit histograms: the sum of all collected points) must be what the multiset gives in any
+	// sequential order; only order-free clauses are judged (CExplicitMulti / CExpoMulti).
+	fvalsC := []float64{0.5, 1, 2.25, 3, 7.5, 10, 10.5, 100, -1.5, 0, 1024, 0.0009765625}
+	ivalsC := []int64{1, 2, 3, 5, 10, 11, 100, -2, 0, 1000, 7, 64}
+	addConcurrent := func(expo, isInt, cumul, racing bool, bounds []float64, ms, mxs int32, G, N int, kind string) {
+		desc := map[string]any{"op": "concurrent", "expo": expo, "int64": isInt, "cumulative": cumul, "racing_collects": racing,
+			"goroutines": G, "records_each": N, "bounds": hexes(bounds), "maxsize": ms, "maxscale": mxs}
+		guard(desc, func() {
+			var s setup
+			if expo {
+				s = setup{agg: metric.AggregationBase2ExponentialHistogram{MaxSize: ms, MaxScale: mxs}}
+			} else {
+				s = setup{agg: metric.AggregationExplicitBucketHistogram{Boundaries: bounds}}
+			}
+			s.cumul, s.isInt = cumul, isInt
+			in := newInst(s)
+			nv := len(fvalsC)
+			mult := make([]uint64, nv)
+			idx := func(g, j int) int { return (g*7 + j*(g+1)) % nv }
+			for g := 0; g < G; g++ {
+				for j := 0; j < N; j++ {
+					mult[idx(g, j)]++
+				}
+			}
+			// merged explicit observation over delta collections (values are small: exact in float64)
+			var mCounts []uint64
+			var mCount uint64
+			var mSum float64
+			mMin, mMax := math.Inf(1), math.Inf(-1)
+			merge := func(d any) {
+				switch h := d.(type) {
+				case metricdata.Histogram[float64]:
+					for _, p := range h.DataPoints {
+						if mCounts == nil {
+							mCounts = make([]uint64, len(p.BucketCounts))
+						}
+						for i, c := range p.BucketCounts {
+							mCounts[i] += c
+						}
+						mCount += p.Count
+						mSum += p.Sum
+						if v, ok := p.Min.Value(); ok {
+							mMin = math.Min(mMin, v)
+						}
+						if v, ok := p.Max.Value(); ok {
+							mMax = math.Max(mMax, v)
+						}
+					}
+				case metricdata.Histogram[int64]:
+					for _, p := range h.DataPoints {
+						if mCounts == nil {
+							mCounts = make([]uint64, len(p.BucketCounts))
+						}
+						for i, c := range p.BucketCounts {
+							mCounts[i] += c
+						}
+						mCount += p.Count
+						mSum += float64(p.Sum)
+						if v, ok := p.Min.Value(); ok {
+							mMin = math.Min(mMin, float64(v))
+						}
+						if v, ok := p.Max.Value(); ok {
+							mMax = math.Max(mMax, float64(v))
+						}
+					}
+				}
+			}
+			mergeDelta := !expo && !cumul
+			start := make(chan struct{})
+			stop := make(chan struct{})
+			var wg, cwg sync.WaitGroup
+			for g := 0; g < G; g++ {
+				wg.Add(1)
+				go func(g int) {
+					defer wg.Done()
+					<-start
+					for j := 0; j < N; j++ {
+						if isInt {
+							in.recI(ivalsC[idx(g, j)], false)
+						} else {
+							in.recF(fvalsC[idx(g, j)], false)
+						}
+					}
+				}(g)
+			}
+			if racing {
+				cwg.Add(1)
+				go func() {
+					defer cwg.Done()
+					<-start
+					for {
+						select {
+						case <-stop:
+							return
+						default:
+						}
+						d := in.collect()
+						if mergeDelta {
+							merge(d)
+						}
+						runtime.Gosched()
+					}
+				}()
+			}
+			close(start)
+			wg.Wait()
+			close(stop)
+			cwg.Wait()
+			d := in.collect()
+			pairs := make([]string, 0, nv)
+			for i := 0; i < nv; i++ {
+				if mult[i] == 0 {
+					continue
+				}
+				if isInt {
+					pairs = append(pairs, vgen.Pair(inum(ivalsC[i]), vgen.N(mult[i])))
+				} else {
+					pairs = append(pairs, vgen.Pair(fnum(fvalsC[i]), vgen.N(mult[i])))
+				}
+			}
+			w.Tally(fmt.Sprintf("concurrent:expo=%v:int=%v:cumul=%v:racing=%v", expo, isInt, cumul, racing))
+			if expo {
+				ob := obsExpo(d)
+				if !ob.ok || !ob.mm {
+					w.Violation("no exponential histogram data point after concurrent recording", desc)
+					return
+				}
+				w.Add(vgen.App("CExpoMulti", vgen.Z(int64(ms)), vgen.Z(int64(mxs)), vgen.List(pairs), ob.coq()), desc, kind, true)
+				return
+			}
+			var ob hobs
+			if mergeDelta {
+				merge(d)
+				ob = hobs{counts: mCounts, count: mCount, ok: mCounts != nil}
+				if isInt {
+					ob.min, ob.max, ob.sum = inum(int64(mMin)), inum(int64(mMax)), inum(int64(mSum))
+				} else {
+					ob.min, ob.max, ob.sum = fnum(mMin), fnum(mMax), fnum(mSum)
+				}
+			} else {
+				ob = obsExplicit(d)
+				ob.ok = ob.ok && ob.mm
+			}
+			if !ob.ok {
+				w.Violation("no explicit histogram data point after concurrent recording", desc)
+				return
+			}
+			w.Add(vgen.App("CExplicitMulti", fnums(bounds), vgen.List(pairs), ob.coq()), desc, kind, true)
+		})
+	}
+	{
+		G, N := 8, o.Count(12000, 100000)
+		cb := [][]float64{{0, 5, 10}, {1, 2, 3, 7, 10.5, 64, 1000}}
+		for i, isInt := range []bool{false, true, false, true} {
+			addConcurrent(false, isInt, false, true, cb[i/2], 0, 0, G, N, "concurrent")
+			addConcurrent(false, isInt, true, true, cb[i/2], 0, 0, G, N, "concurrent")
+			addConcurrent(false, isInt, false, false, cb[1-i/2], 0, 0, G, N, "concurrent")
+		}
+		for _, c := range [][2]int32{{160, 20}, {4, 0}, {20, 3}, {3, -2}} {
+			for _, isInt := range []bool{false, true} {
+				addConcurrent(true, isInt, true, true, nil, c[0], c[1], G, N, "concurrent")
+				addConcurrent(true, isInt, false, false, nil, c[0], c[1], G, N, "concurrent")
+			}
+		}
 	}
 
 	w.Extra["sum_policy"] = "float64 sums compared only for cases whose partial sums are exact (decided in Coq by sum_exact)"
